@@ -30,8 +30,10 @@ FLAKY_IS_VIOLATION = True      # a leak changes the process: the same history ru
 EXHAUSTIVE = {}
 
 _prog = st.one_of(c13._valid, c13._mutation, c13._tokens)
-def _mk_case(p, qs, fresh, history_first):
+def _mk_case(p, qs, fresh, history_first, crlf=0):
     case = dict(p=p["lines"], qs=[q["lines"] for q in qs], fresh=fresh == 0)
+    if crlf == 0:       # the lines as a file with CR LF line ends delivers them when it is read in binary-safe fashion
+        case["p"] = [l[:-1] + "\r\n" if l.endswith("\n") and not l.endswith("\r\n") else l for l in case["p"]]
     if history_first and qs:
         # "first binding wins" caches: the history must come before P is ever assembled in this interpreter state, and
         # the only clean reference is an interpreter that has seen nothing else
@@ -39,7 +41,7 @@ def _mk_case(p, qs, fresh, history_first):
     return case
 
 
-_case = st.builds(_mk_case, _prog, st.lists(_prog, min_size=0, max_size=6), st.integers(0, 11), st.booleans())
+_case = st.builds(_mk_case, _prog, st.lists(_prog, min_size=0, max_size=6), st.integers(0, 11), st.booleans(), st.integers(0, 5))
 
 
 def enumerated(tier, seed):
@@ -51,6 +53,7 @@ def enumerated(tier, seed):
     for p in (a, b):
         for qs in ([b], [a], [c, b], [d, a, b], [a, a], [c, d]):
             yield dict(p=p, qs=qs, fresh=True)
+        yield dict(p=[l[:-1] + "\r\n" for l in p], qs=[a], fresh=True)       # CR LF line ends: the list must come back untouched
     # the same list-element spellings bound to different values in different programs
     e = [" ORG $0E00\n", "E0 EQU $28\n", " NOP \n", "L0 RMB 8\n", " FDB L0+2,E0*2,0\n", " FCB E0,1,E0+1\n"]
     f = [" ORG $3000\n", "L0 FDB L0+2,E0*2,0\n", "E0 EQU $10\n", " FCB E0,1,E0+1\n"]
